@@ -404,7 +404,9 @@ func (s *bufScanner) scanFunc(scan func() (Token, Pos, string)) (tok Token, pos 
 	// Move buffer position forward and save the token.
 	s.i = (s.i + 1) % len(s.buf)
 	buf := &s.buf[s.i]
+	s.verifBeforeScan()
 	buf.tok, buf.pos, buf.lit = scan()
+	s.verifAfterScan()
 
 	return s.curr()
 }
